@@ -505,3 +505,145 @@ impl Engine for C02 {
         CaseResult { transitions: tr, nontrivial, outcome, failures, ..Default::default() }
     }
 }
+
+// ====================================================================== C07
+
+pub struct C07;
+
+fn well_nested(levels: &[u8]) -> bool {
+    let mut prev = 0u8;
+    for (i, l) in levels.iter().enumerate() {
+        if i == 0 {
+            if *l != 1 {
+                return false;
+            }
+        } else if *l > prev + 1 {
+            return false;
+        }
+        prev = *l;
+    }
+    true
+}
+
+/// structure of a note: per block (container path, index of the nearest preceding heading in the
+/// same container, kind; for headings also the text without link texts), item counts per list
+fn structure(bs: &[B]) -> (Vec<(String, i64, &'static str, String)>, Vec<(bool, usize)>) {
+    fn strip_links(ts: &[Tok]) -> String {
+        ts.iter()
+            .filter_map(|t| match t {
+                Tok::W(w) => Some(w.clone()),
+                Tok::Code(c) => Some(c.clone()),
+                _ => None,
+            })
+            .collect::<Vec<_>>()
+            .join(" ")
+    }
+    let o = outline(bs);
+    // recompute heading texts without link texts (they may be refreshed)
+    fn heads(bs: &[B], out: &mut Vec<String>) {
+        for b in bs {
+            match b {
+                B::Heading(t) => out.push(strip_links(t)),
+                B::Quote(v) => heads(v, out),
+                B::List(_, items) => {
+                    for i in items {
+                        heads(i, out)
+                    }
+                }
+                _ => {}
+            }
+        }
+    }
+    let mut hs = vec![];
+    heads(bs, &mut hs);
+    let mut hi = 0;
+    let blocks = o
+        .blocks
+        .iter()
+        .map(|b| {
+            let text = if b.kind == "heading" {
+                let t = hs.get(hi).cloned().unwrap_or_default();
+                hi += 1;
+                t
+            } else {
+                String::new()
+            };
+            (b.path.clone(), b.under, b.kind, text)
+        })
+        .collect();
+    (blocks, o.list_items)
+}
+
+impl Engine for C07 {
+    fn id(&self) -> &'static str {
+        "C07"
+    }
+    fn rule(&self) -> String {
+        "documents = all heading-level sequences over levels 1-6 up to the bound (ATX and setext, with and without body paragraphs) + the block-grammar forests (lists nested and mixed, multi-block items, quotes containing them) + ordered lists around 9/10 and 99/100 items; each is formatted by the real code; the independent outline extractor (R2, on the R1 trees, with the statement's input-side equivalences) must give the same structure for input and output: headings in order with their text, every block in the same container path (quote / bullet item / ordered item) under the same nearest preceding heading, the same number of items per list, the same list kinds; the document-level heading levels of the output must be well-nested and equal to the input's when those were well-nested. non-trivial = formatting changed the text".into()
+    }
+    fn bound(&self, tier: Tier) -> String {
+        match tier {
+            Tier::Quick => "heading sequences of length <= 4; block forests <= 3 nodes nesting <= 3 (style variants <= 2 nodes); ordered lists of 8..12, 98..101 items".into(),
+            Tier::Thorough => "heading sequences of length <= 5; block forests <= 4 nodes nesting <= 4 (style variants <= 3 nodes); ordered lists of 8..12, 98..101, 999..1001 items".into(),
+        }
+    }
+    fn assumptions(&self) -> Vec<String> {
+        let mut a = doc_assumptions();
+        a.push("heading levels inside quotes and list items are not compared (they restart there); link texts inside headings may be refreshed and are not part of the heading text compared".into());
+        a
+    }
+    fn enumerate(&self, tier: Tier, emit: &mut dyn FnMut(&str)) {
+        let thorough = tier == Tier::Thorough;
+        space::heading_sequences(if thorough { 5 } else { 4 }, emit);
+        let ns: &[usize] = if thorough { &[8, 9, 10, 11, 12, 98, 99, 100, 101, 999, 1000, 1001] } else { &[8, 9, 10, 11, 12, 98, 99, 100, 101] };
+        for n in ns {
+            emit(&space::scale_doc("ordered-items", *n));
+            let s: String = (0..*n).map(|i| format!("{}. i{}\n   - sub{}\n", i + 1, i, i)).collect();
+            emit(&s);
+        }
+        if thorough {
+            space::block_docs(4, 3, 4, true, emit);
+        } else {
+            space::block_docs(3, 2, 3, true, emit);
+        }
+    }
+    fn features(&self, case: &str) -> Vec<String> {
+        doc_features(case)
+    }
+    fn run(&self, case: &str, _ctx: &Ctx) -> CaseResult {
+        let text = case;
+        let feats = doc_features(text);
+        let Ok(out) = p1(DOC, text, "") else {
+            return CaseResult { outcome: "panic-skip".into(), transitions: 1, ..Default::default() };
+        };
+        let mut failures: Vec<Failure> = vec![];
+        let mut push = |clause: &str, site: &str, detail: String| {
+            if !failures.iter().any(|f: &Failure| f.clause == clause) {
+                failures.push(Failure { clause: clause.into(), site: site.into(), features: feats.clone(), detail });
+            }
+        };
+        let a = structure(&canon_in(extract(text), false));
+        let b = structure(&canon_out(extract(&out), false));
+        let ctx = format!("{:?} -> {:?}", trunc(text, 300), trunc(&out, 300));
+        let ha: Vec<&String> = a.0.iter().filter(|x| x.2 == "heading").map(|x| &x.3).collect();
+        let hb: Vec<&String> = b.0.iter().filter(|x| x.2 == "heading").map(|x| &x.3).collect();
+        if ha != hb {
+            push("headings", "", format!("heading texts/order: expected {:?} got {:?}; {}", ha, hb, ctx));
+        } else if a.0 != b.0 {
+            let i = a.0.iter().zip(b.0.iter()).position(|(x, y)| x != y).unwrap_or(a.0.len().min(b.0.len()));
+            push("placement", "", format!("block {}: expected (container, under-heading, kind) {:?} got {:?}; {}", i, a.0.get(i), b.0.get(i), ctx));
+        }
+        if a.1 != b.1 {
+            push("lists", "", format!("lists (ordered?, items): expected {:?} got {:?}; {}", a.1, b.1, ctx));
+        }
+        let li: Vec<u8> = heading_levels(text).iter().filter(|h| h.2 == 0).map(|h| h.0).collect();
+        let lo: Vec<u8> = heading_levels(&out).iter().filter(|h| h.2 == 0).map(|h| h.0).collect();
+        if !well_nested(&lo) {
+            push("levels", "not-well-nested", format!("output heading levels {:?} are not well-nested (input {:?}); {}", lo, li, ctx));
+        } else if well_nested(&li) && li != lo {
+            push("levels", "changed", format!("input levels {:?} were well-nested but the output has {:?}; {}", li, lo, ctx));
+        }
+        let outcome = if failures.is_empty() { if li == lo { "same-levels".to_string() } else { "renested".to_string() } } else { failures.iter().map(|f| f.clause.clone()).collect::<Vec<_>>().join("+") };
+        CaseResult { transitions: 1, nontrivial: out != text, outcome, failures, ..Default::default() }
+    }
+}
